@@ -34,10 +34,11 @@ impl Oracles {
     /// speaks about it, and not under whichever check happened to execute the call.
     pub fn subject(&self, p: &str, op: &Op) -> bool {
         match p {
-            "C01" | "C02" | "C03" | "C04" | "C05" | "C19" => op.is_drawing(),
+            "C01" | "C02" | "C03" | "C04" | "C05" | "C19" => op.is_drawing() || matches!(op, Op::Reinit { .. }),
+            "C11" | "C17" => matches!(op, Op::Reinit { .. }),
             "C10" => op.is_drawing() || matches!(op, Op::SetOrientation { .. }),
             "C12" => true,
-            "C13" => matches!(op, Op::Sleep | Op::Wake),
+            "C13" => matches!(op, Op::Sleep | Op::Wake | Op::Reinit { .. }),
             "C16" => matches!(op, Op::ScrollRegion { .. } | Op::ScrollOffset { .. }),
             _ => false,
         }
@@ -305,8 +306,9 @@ fn viol(case: &Case, class: &str, call: &str, op_index: i64, detail: String) -> 
     Violation { property: case.property.clone(), class: class.to_string(), call: call.to_string(), op_index, detail }
 }
 
-fn call_op(d: &mut dyn dut::Dut, op: &Op, clk: &mut SimClock, space: u32, visible: u64) -> DR {
+fn call_op(d: &mut dyn dut::Dut<'_>, op: &Op, clk: &mut SimClock, space: u32, visible: u64) -> DR {
     match op {
+        Op::Reinit { .. } => unreachable!("handled by the executor"),
         Op::SetPixel { x, y, c } => d.set_pixel(*x, *y, *c & (space - 1)),
         Op::SetPixels { sx, sy, ex, ey, colors } => {
             let mut it = ColorIter { colors, space, pos: 0, calls: 0, max_calls: colors.len() * 2 + 4096 };
@@ -591,13 +593,32 @@ pub fn exec_case(case: &Case, opt: &ExecOpt) -> Outcome {
                     out.violation = Some(viol(case, "init-did-nothing", "init", -1, "accepted but no hardware operation".into()));
                 }
                 if orc.init_state && out.violation.is_none() && w.fired.is_empty() {
-                    out.violation = init_state_oracle(case, &w, c);
+                    if cfg.model.builtin() && !kind_supported {
+                        out.violation = Some(viol(
+                            case,
+                            "undrivable-pairing-accepted",
+                            "init",
+                            -1,
+                            format!("{:?} cannot be driven over {:?} but init did not refuse it with UnsupportedInterface", cfg.model, cfg.transport.kind()),
+                        ));
+                    } else {
+                        out.violation = init_state_oracle(case, &w, c);
+                    }
                 }
             }
         }
-        if orc.reset && out.violation.is_none() && w.fired.is_empty() {
+        if out.violation.is_none() && !w.stub_faults.is_empty() && dut_box.is_ok() {
+            if orc.init_state || orc.reset || orc.fault_contract {
+                out.violation = Some(viol(case, "undriven-pin-sampled", "init", -1, w.stub_faults[0].clone()));
+            } else {
+                out.skipped = Some("init sampled a pin that was never driven");
+            }
+        }
+        if orc.reset && out.violation.is_none() {
+            // also when a reset-pin fault was swallowed and init claims success
             if let Ok(_) = &dut_box {
-                out.violation = reset_oracle(case, &w, c);
+                let bwr = c.issues.iter().any(|i| matches!(i, Issue::BusWhileReset));
+                out.violation = reset_oracle(case, cfg, &w, &w.log, c.first_cmd, c.soft_resets, bwr, "init", -1);
             }
         }
     }
@@ -605,7 +626,12 @@ pub fn exec_case(case: &Case, opt: &ExecOpt) -> Outcome {
         drop(dut_box);
         return finish(out, stats, &wr, opt);
     }
-    let d: &mut dyn dut::Dut = dut_box.as_mut().unwrap().as_mut();
+    let mut dut: Box<dyn dut::Dut<'_> + '_> = match dut_box {
+        Ok(d) => d,
+        Err(_) => unreachable!(),
+    };
+    // from here on the configuration can change (Reinit)
+    let mut cfg: Config = case.config.clone();
 
     // madctl / offset probes
     {
@@ -628,7 +654,7 @@ pub fn exec_case(case: &Case, opt: &ExecOpt) -> Outcome {
         }
     }
 
-    let mut rm = RefModel::new(cfg);
+    let mut rm = RefModel::new(&cfg);
     // the controller issues and events of init are not the business of the per-call oracles
     {
         let mut w = wr.borrow_mut();
@@ -639,15 +665,13 @@ pub fn exec_case(case: &Case, opt: &ExecOpt) -> Outcome {
     }
     if orc.size {
         let (lw, lh) = rm.logical_size();
-        if d.size() != (lw, lh) || d.bbox() != (0, 0, lw, lh) {
-            out.violation = Some(viol(case, "size-mismatch", "init", -1, format!("size {:?} bbox {:?}, expected {}x{}", d.size(), d.bbox(), lw, lh)));
-            drop(dut_box);
+        if dut.size() != (lw, lh) || dut.bbox() != (0, 0, lw, lh) {
+            out.violation = Some(viol(case, "size-mismatch", "init", -1, format!("size {:?} bbox {:?}, expected {}x{}", dut.size(), dut.bbox(), lw, lh)));
             return finish(out, stats, &wr, opt);
         }
     }
-    if orc.sleep && d.is_sleeping() {
+    if orc.sleep && dut.is_sleeping() {
         out.violation = Some(viol(case, "sleep-flag", "init", -1, "is_sleeping() is true right after init".into()));
-        drop(dut_box);
         return finish(out, stats, &wr, opt);
     }
 
@@ -656,6 +680,8 @@ pub fn exec_case(case: &Case, opt: &ExecOpt) -> Outcome {
     let mut outstanding_failure = false;
     let mut i = 0usize;
     let mut retried = false;
+    let mut reinit_fail: Option<InitFail> = None;
+    let mut reinit_dead = false;
     while i < case.program.len() {
         let op = &case.program[i];
         let name = op.name();
@@ -680,7 +706,26 @@ pub fn exec_case(case: &Case, opt: &ExecOpt) -> Outcome {
         }
         stats.calls += 1;
         op_probes(op, &rm, &mut stats);
-        let res = guarded(|| call_op(d, op, &mut clk, space, visible));
+        let res = if let Op::Reinit { .. } = op {
+            // restart: release everything, initialise again with the new options
+            let newcfg = cfg.after_reinit(op);
+            wr.borrow_mut().budget = 400_000;
+            let old = std::mem::replace(&mut dut, Box::new(dut::DeadDut));
+            let clkref = &mut clk;
+            match guarded(move || old.reinit(&newcfg, clkref)) {
+                Err(p) => Err(p),
+                Ok(Ok(newdut)) => {
+                    dut = newdut;
+                    Ok(Ok(()))
+                }
+                Ok(Err(f)) => {
+                    reinit_fail = Some(f);
+                    Ok(Ok(()))
+                }
+            }
+        } else {
+            guarded(|| call_op(dut.as_mut(), op, &mut clk, space, visible))
+        };
         let (events, issues, dirty) = {
             let mut w = wr.borrow_mut();
             let c = w.ctrl.as_mut().unwrap();
@@ -710,6 +755,40 @@ pub fn exec_case(case: &Case, opt: &ExecOpt) -> Outcome {
         };
         let fired_now = wr.borrow().fired.len();
         let fault_in_call = fired_now > fired_before;
+        if let Some(f) = reinit_fail.take() {
+            // the display object is gone; judge the failure and end the run
+            let w = wr.borrow();
+            match f {
+                InitFail::Interface(e) if fault_in_call => {
+                    if orc.fault_contract {
+                        if !err_matches_fired(&e, &w, fired_before) {
+                            out.violation = Some(viol(case, "error-identity", name, i as i64, format!("returned {:?}, fired {:?}", e, &w.fired[fired_before..])));
+                        } else if let Some(v) = ops_after_fault(case, &w, log_before, name, i as i64) {
+                            out.violation = Some(v);
+                        }
+                    }
+                }
+                InitFail::ResetPin(e) if fault_in_call => {
+                    if orc.fault_contract && !w.fired[fired_before..].iter().any(|(_, p)| *p == e && p.src == PIN_RST) {
+                        out.violation = Some(viol(case, "error-identity", name, i as i64, format!("returned ResetPin({:?}), fired {:?}", e, &w.fired[fired_before..])));
+                    }
+                }
+                other => {
+                    if orc.subject(&case.property, op) {
+                        out.violation = Some(viol(case, "reinit-failed", name, i as i64, format!("re-initialisation with a valid configuration failed: {:?}", other)));
+                    } else {
+                        out.skipped = Some("re-initialisation failed");
+                    }
+                }
+            }
+            reinit_dead = true;
+            break;
+        }
+        if let Op::Reinit { .. } = op {
+            if res == Ok(()) {
+                cfg = cfg.after_reinit(op);
+            }
+        }
         match res {
             Ok(()) => {
                 if fault_in_call && orc.fault_contract {
@@ -781,8 +860,8 @@ pub fn exec_case(case: &Case, opt: &ExecOpt) -> Outcome {
                     continue;
                 } else {
                     // non-drawing call: the client retries once faults allow
-                    if matches!(op, Op::Sleep | Op::Wake) && (orc.sleep || orc.fault_contract) && d.is_sleeping() != rm.sleeping {
-                        out.violation = Some(viol(case, "sleep-flag-after-failed-call", name, i as i64, format!("is_sleeping() = {} after a failed {}", d.is_sleeping(), name)));
+                    if matches!(op, Op::Sleep | Op::Wake) && (orc.sleep || orc.fault_contract) && dut.is_sleeping() != rm.sleeping {
+                        out.violation = Some(viol(case, "sleep-flag-after-failed-call", name, i as i64, format!("is_sleeping() = {} after a failed {}", dut.is_sleeping(), name)));
                         break;
                     }
                     outstanding_failure = true;
@@ -796,6 +875,9 @@ pub fn exec_case(case: &Case, opt: &ExecOpt) -> Outcome {
         stats.checked_calls += 1;
         let prev_orient = rm.orient;
         rm.apply(op);
+        if let Op::Reinit { .. } = op {
+            rm.reconfigure(&cfg);
+        }
         if let Op::SetOrientation { .. } = op {
             if rm.orient != prev_orient {
                 stats.probes[probe("orientation_changed")] += 1;
@@ -811,9 +893,34 @@ pub fn exec_case(case: &Case, opt: &ExecOpt) -> Outcome {
             out.violation = Some(viol(case, "undriven-pin-sampled", name, i as i64, w.stub_faults[0].clone()));
             break;
         }
+        if let Op::Reinit { .. } = op {
+            if orc.reset {
+                let first_cmd = events.iter().find_map(|e| if let CtrlEv::Cmd { op, .. } = e { Some(*op) } else { None });
+                let soft = events.iter().filter(|e| matches!(e, CtrlEv::Cmd { op: 0x01, page: 0, .. })).count() as u64;
+                let bwr = issues.iter().any(|i| matches!(i, Issue::BusWhileReset));
+                if let Some(v) = reset_oracle(case, &cfg, &w, &w.log[log_before..], first_cmd, soft, bwr, name, i as i64) {
+                    out.violation = Some(v);
+                    break;
+                }
+            }
+            if orc.init_state {
+                if let Some(mut v) = init_state_oracle_cfg(case, &cfg, &w, c, &events, &issues) {
+                    v.call = name.to_string();
+                    v.op_index = i as i64;
+                    out.violation = Some(v);
+                    break;
+                }
+            }
+        }
         if orc.no_oob {
             if let Some(is) = issues.iter().find(|x| matches!(x, Issue::OobWrite { .. } | Issue::WindowBad { .. })) {
                 out.violation = Some(viol(case, "addresses-outside-framebuffer", name, i as i64, format!("{:?} during {:?}", is, short_op(op))));
+                break;
+            }
+        }
+        if orc.picture {
+            if let Some(is) = issues.iter().find(|x| matches!(x, Issue::BulkFormatMismatch { .. })) {
+                out.violation = Some(viol(case, "pixel-encoding", name, i as i64, format!("{:?} during {}", is, short_op(op))));
                 break;
             }
         }
@@ -838,21 +945,21 @@ pub fn exec_case(case: &Case, opt: &ExecOpt) -> Outcome {
                 out.violation = Some(viol(case, "colmod-mismatch", name, i as i64, format!("controller was told COLMOD {:#04x}, colour type needs format {}", c.colmod, want)));
                 break;
             }
-            if let Some(is) = issues.iter().find(|x| matches!(x, Issue::PartialPixel { .. } | Issue::FormatUnsupported { .. })) {
+            if let Some(is) = issues.iter().find(|x| matches!(x, Issue::PartialPixel { .. } | Issue::FormatUnsupported { .. } | Issue::BulkFormatMismatch { .. })) {
                 out.violation = Some(viol(case, "pixel-encoding", name, i as i64, format!("{:?}", is)));
                 break;
             }
         }
         if orc.size || orc.orient {
             let (lw, lh) = rm.logical_size();
-            if d.size() != (lw, lh) || d.bbox() != (0, 0, lw, lh) {
-                out.violation = Some(viol(case, "size-mismatch", name, i as i64, format!("size {:?} bbox {:?}, expected {}x{}", d.size(), d.bbox(), lw, lh)));
+            if dut.size() != (lw, lh) || dut.bbox() != (0, 0, lw, lh) {
+                out.violation = Some(viol(case, "size-mismatch", name, i as i64, format!("size {:?} bbox {:?}, expected {}x{}", dut.size(), dut.bbox(), lw, lh)));
                 break;
             }
         }
         if orc.orient {
-            if d.orientation() != rm.orient {
-                out.violation = Some(viol(case, "orientation-mismatch", name, i as i64, format!("orientation() = {:?}, last set {:?}", d.orientation(), rm.orient)));
+            if dut.orientation() != rm.orient {
+                out.violation = Some(viol(case, "orientation-mismatch", name, i as i64, format!("orientation() = {:?}, last set {:?}", dut.orientation(), rm.orient)));
                 break;
             }
             let want = madctl_ref(cfg.bgr, rm.orient, cfg.refresh);
@@ -872,13 +979,13 @@ pub fn exec_case(case: &Case, opt: &ExecOpt) -> Outcome {
             }
         }
         if orc.counts {
-            if let Some(v) = counts_oracle(case, name, i as i64, op, &events, &w, log_before, cfg, &rm, visible, &mut measured_cap, &mut stats) {
+            if let Some(v) = counts_oracle(case, name, i as i64, op, &events, &w, log_before, &cfg, &rm, visible, &mut measured_cap, &mut stats) {
                 out.violation = Some(v);
                 break;
             }
         }
         if orc.sleep {
-            let ds = d.is_sleeping();
+            let ds = dut.is_sleeping();
             if ds != rm.sleeping {
                 out.violation = Some(viol(case, "sleep-flag", name, i as i64, format!("is_sleeping() = {}, last successful of sleep/wake says {}", ds, rm.sleeping)));
                 break;
@@ -907,7 +1014,7 @@ pub fn exec_case(case: &Case, opt: &ExecOpt) -> Outcome {
         }
         if orc.test_image {
             if let Op::TestImage = op {
-                if let Some(v) = crate::timg::display_oracle(case, i as i64, cfg, &rm, c, &issues) {
+                if let Some(v) = crate::timg::display_oracle(case, i as i64, &cfg, &rm, c, &issues) {
                     out.violation = Some(v);
                     break;
                 }
@@ -936,9 +1043,11 @@ pub fn exec_case(case: &Case, opt: &ExecOpt) -> Outcome {
             }
         }
     }
-    out.final_orient = Some(d.orientation());
-    out.final_size = Some(d.size());
-    drop(dut_box);
+    if !reinit_dead {
+        out.final_orient = Some(dut.orientation());
+        out.final_size = Some(dut.size());
+    }
+    drop(dut);
     finish(out, stats, &wr, opt)
 }
 
@@ -1072,11 +1181,11 @@ fn ops_after_fault(case: &Case, w: &World, since: usize, call: &str, idx: i64) -
 }
 
 fn init_state_oracle(case: &Case, w: &World, c: &Controller) -> Option<Violation> {
-    let cfg = &case.config;
+    init_state_oracle_cfg(case, &case.config, w, c, &c.events, &c.issues)
+}
+
+fn init_state_oracle_cfg(case: &Case, cfg: &Config, w: &World, c: &Controller, events: &[CtrlEv], issues: &[Issue]) -> Option<Violation> {
     let v = |class: &str, d: String| Some(viol(case, class, "init", -1, d));
-    if !crate::dut::supported_today(cfg.model, cfg.transport.kind()) {
-        // became additionally supported: not a violation (only refusal of today's pairs is)
-    }
     if c.sleeping {
         return v("controller-asleep-after-init", "controller is still in sleep mode when init returns".into());
     }
@@ -1094,10 +1203,10 @@ fn init_state_oracle(case: &Case, w: &World, c: &Controller) -> Option<Violation
     if c.inverted != cfg.invert {
         return v("inversion-mismatch", format!("controller inverted = {}, option says {}", c.inverted, cfg.invert));
     }
-    if c.mem.writes != 0 || c.pixels_seen != 0 {
-        return v("pixel-memory-written-in-init", format!("{} cells written during init", c.mem.writes));
+    if events.iter().any(|e| matches!(e, CtrlEv::Burst { pixels, .. } if *pixels > 0)) {
+        return v("pixel-memory-written-in-init", "pixel data sent during init".into());
     }
-    if c.events.iter().any(|e| matches!(e, CtrlEv::Cmd { op: 0x2C | 0x3C, page: 0, .. })) {
+    if events.iter().any(|e| matches!(e, CtrlEv::Cmd { op: 0x2C | 0x3C, page: 0, .. })) {
         return v("pixel-memory-written-in-init", "memory write command during init".into());
     }
     match c.sleep_cmd_times.iter().rev().find(|(o, _)| *o == 0x11) {
@@ -1108,54 +1217,60 @@ fn init_state_oracle(case: &Case, w: &World, c: &Controller) -> Option<Violation
             }
         }
     }
-    if let Some(is) = c.issues.iter().find(|i| matches!(i, Issue::Arity { .. } | Issue::OrphanData | Issue::HiByte { .. })) {
+    if let Some(is) = issues.iter().find(|i| matches!(i, Issue::Arity { .. } | Issue::OrphanData | Issue::HiByte { .. })) {
         return v("malformed-init-traffic", format!("{:?}", is));
     }
     None
 }
 
-fn reset_oracle(case: &Case, w: &World, c: &Controller) -> Option<Violation> {
-    let cfg = &case.config;
-    let v = |class: &str, d: String| Some(viol(case, class, "init", -1, d));
+/// Timeline pattern of one initialisation: `log` is the slice of the world's event log that
+/// belongs to it, `first_cmd` / `soft_resets` what the controller saw during it.
+fn reset_oracle(case: &Case, cfg: &Config, w: &World, log: &[crate::world::Ev], first_cmd: Option<u8>, soft_resets: u64, bus_while_reset: bool, call: &str, idx: i64) -> Option<Violation> {
+    let v = |class: &str, d: String| Some(viol(case, class, call, idx, d));
     let is_bus = |e: &crate::world::Ev| match e.kind {
         EvKind::SpiTx | EvKind::TraceCall | EvKind::Latch => true,
         EvKind::PinSet => e.id != PIN_RST,
         EvKind::Delay => false,
     };
     if cfg.rst {
-        let first = w.log.iter().find(|e| e.kind != EvKind::Delay);
-        match first {
-            Some(e) if e.kind == EvKind::PinSet && e.id == PIN_RST && e.flag == 0 => {}
-            other => return v("reset-not-first", format!("first hardware event of init is {:?}, not reset low", other.map(|e| (e.kind, e.id, e.flag)))),
+        // the statement: drive low, wait >= 10 us, drive high, leave high, nothing on the bus
+        // until the pin is high again. (Driving the pin high before the pulse, or high again
+        // later, is not excluded by it and is tolerated.)
+        let all_rst: Vec<&crate::world::Ev> = log.iter().filter(|e| e.kind == EvKind::PinSet && e.id == PIN_RST).collect();
+        let Some(p0) = all_rst.iter().position(|e| e.flag == 0) else {
+            return v("reset-not-first", "the reset pin is never driven low during init".into());
+        };
+        let rst_events = &all_rst[p0..];
+        if rst_events.len() < 2 || rst_events[1].flag != 1 {
+            return v("reset-pulse-shape", format!("reset pin events: {:?}", all_rst.iter().map(|e| (e.flag, e.t_ns)).collect::<Vec<_>>()));
         }
-        let rst_events: Vec<&crate::world::Ev> = w.log.iter().filter(|e| e.kind == EvKind::PinSet && e.id == PIN_RST).collect();
-        if rst_events.len() != 2 || rst_events[1].flag != 1 {
-            return v("reset-pulse-shape", format!("reset pin events: {:?}", rst_events.iter().map(|e| (e.flag, e.t_ns)).collect::<Vec<_>>()));
+        if rst_events[2..].iter().any(|e| e.flag == 0) {
+            return v("reset-pulse-shape", format!("reset pin driven low again after the pulse: {:?}", all_rst.iter().map(|e| (e.flag, e.t_ns)).collect::<Vec<_>>()));
         }
         if rst_events[1].t_ns < rst_events[0].t_ns + 10_000 {
             return v("reset-pulse-short", format!("reset low for {} ns", rst_events[1].t_ns - rst_events[0].t_ns));
         }
-        let (l0, l1) = (rst_events[0].llop, rst_events[1].llop);
-        if let Some(e) = w.log.iter().find(|e| is_bus(e) && e.llop > l0 && e.llop < l1) {
-            return v("bus-activity-during-reset", format!("{:?} id {} while reset was low", e.kind, e.id));
+        let l1 = rst_events[1].llop;
+        if let Some(e) = log.iter().find(|e| is_bus(e) && e.llop < l1) {
+            return v("bus-activity-before-reset-released", format!("{:?} id {} before the reset pin was high again", e.kind, e.id));
         }
         if w.pins[PIN_RST as usize] != Level::High {
             return v("reset-left-low", "reset pin is not high when init returns".into());
         }
-        if c.soft_resets != 0 {
-            return v("soft-reset-with-reset-pin", format!("{} software reset command(s) although a reset pin is configured", c.soft_resets));
+        if soft_resets != 0 {
+            return v("soft-reset-with-reset-pin", format!("{} software reset command(s) although a reset pin is configured", soft_resets));
         }
-        if c.issues.iter().any(|i| matches!(i, Issue::BusWhileReset)) {
+        if bus_while_reset {
             return v("bus-activity-during-reset", "controller saw bus traffic while held in reset".into());
         }
     } else {
-        if c.first_cmd != Some(0x01) {
-            return v("soft-reset-not-first", format!("first command on the bus is {:02x?}", c.first_cmd));
+        if first_cmd != Some(0x01) {
+            return v("soft-reset-not-first", format!("first command on the bus is {:02x?}", first_cmd));
         }
-        if c.soft_resets != 1 {
-            return v("soft-reset-count", format!("{} software resets", c.soft_resets));
+        if soft_resets != 1 {
+            return v("soft-reset-count", format!("{} software resets", soft_resets));
         }
-        if w.log.iter().any(|e| e.kind == EvKind::PinSet && e.id == PIN_RST) {
+        if log.iter().any(|e| e.kind == EvKind::PinSet && e.id == PIN_RST) {
             return v("reset-pin-touched", "reset pin driven although none was configured".into());
         }
     }
@@ -1167,7 +1282,14 @@ fn framing_oracle(case: &Case, name: &str, idx: i64, op: &Op, events: &[CtrlEv],
     if let Some(is) = issues.iter().find(|i| {
         matches!(
             i,
-            Issue::WindowBad { .. } | Issue::Arity { .. } | Issue::PartialPixel { .. } | Issue::OrphanData | Issue::WriteContinue | Issue::FormatUnsupported { .. } | Issue::OobWrite { .. }
+            Issue::WindowBad { .. }
+                | Issue::Arity { .. }
+                | Issue::PartialPixel { .. }
+                | Issue::OrphanData
+                | Issue::WriteContinue
+                | Issue::FormatUnsupported { .. }
+                | Issue::OobWrite { .. }
+                | Issue::BulkFormatMismatch { .. }
         )
     }) {
         return v("malformed-frame", format!("{:?} during {}", is, short_op(op)));
